@@ -2255,3 +2255,124 @@ func ruleCRASH11(c *Ctx) {
 		"the recursive expansion runs between `flag = true` and `flag = false`, and entering with the flag set logs an error and returns: a reference cycle cannot recurse for ever",
 		"the recursive expansion of a macro is not protected by an in-expansion flag that is tested on entry (with a diagnostic), set before and cleared after the expansion: a reference cycle that reaches NFACons overflows the stack (no diagnostic, exit 2)")
 }
+
+// ---- CRASH-12: an action's productions are indexed only where it has some ----
+//
+// lr1.Action.Prods is empty for the accept action (AddAccept records no production), holds one
+// production for a reduce and one or more for a shift. `a.Prods[k]` is therefore safe only where
+// the path establishes the action's type (reduce or shift) or the length of the list; in a cell
+// with several candidate actions the accept action can be any of them (seed C12-G indexed
+// actions[0].Prods[0] while printing a conflict).
+func ruleCRASH12(c *Ctx) {
+	const rule = "CRASH-12"
+	p := c.Prog
+	n := 0
+	p.ProdFiles(func(pk *packages.Package, f *ast.File) {
+		info := pk.TypesInfo
+		for _, d := range f.Decls {
+			fd, ok := d.(*ast.FuncDecl)
+			if !ok || fd.Body == nil {
+				continue
+			}
+			par := parents(fd)
+			defs := localDefs(info, fd)
+			ast.Inspect(fd.Body, func(m ast.Node) bool {
+				ix, ok := m.(*ast.IndexExpr)
+				if !ok || !isField(info, ix.X, "parsergen/lr1", "Action", "Prods") {
+					return true
+				}
+				n++
+				base := ast.Unparen(ix.X).(*ast.SelectorExpr).X
+				baseObj := usesObj(info, base)
+				sameBase := func(e ast.Expr) bool {
+					if baseObj != nil && usesObj(info, e) == baseObj {
+						return true
+					}
+					return sameExpr(resolveVia(info, defs, e), resolveVia(info, defs, base))
+				}
+				okFact := false
+				facts := expandFacts(info, defs, pathConds(info, par, ix))
+				for _, fct := range facts {
+					l, op, r, ok := cmpFact(fct.e, !fct.neg)
+					if !ok {
+						continue
+					}
+					// a.Type == ActionReduce / ActionShift
+					if op == token.EQL && isField(info, l, "parsergen/lr1", "Action", "Type") && sameBase(ast.Unparen(l).(*ast.SelectorExpr).X) {
+						if k, isK := usesObj(info, r).(*types.Const); isK && (k.Name() == "ActionReduce" || k.Name() == "ActionShift") {
+							okFact = true
+						}
+					}
+					// len(a.Prods) > k, == n (n > k), != 0 …
+					for _, side := range [][2]ast.Expr{{l, r}, {r, l}} {
+						call, isCall := ast.Unparen(side[0]).(*ast.CallExpr)
+						if !isCall || builtinName(info, call) != "len" || len(call.Args) != 1 || !isField(info, call.Args[0], "parsergen/lr1", "Action", "Prods") {
+							continue
+						}
+						if !sameBase(ast.Unparen(call.Args[0]).(*ast.SelectorExpr).X) {
+							continue
+						}
+						if v, isC := constInt(info, side[1]); isC {
+							kIdx, _ := constInt(info, ix.Index)
+							lenFirst := side[0] == l
+							switch {
+							case op == token.EQL && v > kIdx:
+								okFact = true
+							case lenFirst && op == token.GTR && v >= kIdx, lenFirst && op == token.GEQ && v > kIdx, lenFirst && op == token.NEQ && v == 0 && kIdx == 0:
+								okFact = true
+							case !lenFirst && op == token.LSS && v >= kIdx, !lenFirst && op == token.LEQ && v > kIdx:
+								okFact = true
+							}
+						}
+					}
+				}
+				// an assertion on the length just before (assert.True(len(x.Prods) == 1))
+				for q := ast.Node(ix); q != nil && !okFact; q = par[q] {
+					if _, isStmt := q.(ast.Stmt); !isStmt {
+						continue
+					}
+					if _, isLit := q.(*ast.BlockStmt); isLit {
+						continue
+					}
+					for _, st := range enclosingList(par, q) {
+						if st.End() > ix.Pos() {
+							break
+						}
+						es, isES := st.(*ast.ExprStmt)
+						if !isES {
+							continue
+						}
+						call, isCall := es.X.(*ast.CallExpr)
+						if !isCall || !isAssertFunc(calleeFunc(info, call)) || len(call.Args) < 1 {
+							continue
+						}
+						if strings.Contains(exprString(call.Args[0]), "len("+exprString(ix.X)+")") {
+							okFact = true
+						}
+					}
+				}
+				c.check(okFact, rule, fmt.Sprintf("%s/index(%s)", funcKey(pk, fd), exprString(ix)), p.Pos(ix.Pos()),
+					"the action's productions are indexed where its type (reduce/shift) or the length of the list is established",
+					fmt.Sprintf("`%s` is evaluated without knowing that the action has productions: the accept action has none, and in a conflicting cell it can be any of the candidates (index out of range instead of the conflict diagnostic)", exprString(ix)))
+				return true
+			})
+		}
+	})
+	if n < 3 {
+		c.unres(rule, "lr1.Action.Prods/index-sites", "", "only %d index expressions on Action.Prods found; 5 were confirmed by hand", n)
+	}
+}
+
+func enclosingStmt(par map[ast.Node]ast.Node, n ast.Node) ast.Node {
+	for q := n; q != nil; q = par[q] {
+		if _, ok := q.(ast.Stmt); ok {
+			if _, isBlock := par[q].(*ast.BlockStmt); isBlock {
+				return q
+			}
+			if _, isCC := par[q].(*ast.CaseClause); isCC {
+				return q
+			}
+		}
+	}
+	return n
+}
